@@ -3,3 +3,6 @@ pub mod tree;
 pub mod list;
 mod pool;
 mod node;
+
+#[cfg(itree_verif)]
+pub mod verif;
